@@ -250,7 +250,8 @@ func runStop(x *h.Ctx, c StopCase) string {
 	ticks, ticksAtCancel := 0, -1
 	var cancel context.CancelFunc
 	var ctx context.Context
-	funcs := map[string]any{"tick": func() {
+	runaway := errors.New("runaway: still iterating long after the context was cancelled")
+	funcs := map[string]any{"tick": func() (int, error) {
 		ticks++
 		if ticks == c.CancelAt {
 			cancel()
@@ -260,6 +261,12 @@ func runStop(x *h.Ctx, c StopCase) string {
 			}
 			ticksAtCancel = ticks
 		}
+		if ticksAtCancel >= 0 && ticks-ticksAtCancel > 20000 {
+			// every iteration executes at least three instructions: 20000 iterations are far beyond any polling
+			// interval of about a thousand instructions.  End the run ourselves so that the case can be judged.
+			return 0, runaway
+		}
+		return 0, nil
 	}}
 	prog, err := parser.ParseProgram([]byte(src), &parser.ParserConfig{Funcs: funcs})
 	if err != nil {
@@ -311,6 +318,9 @@ func runStop(x *h.Ctx, c StopCase) string {
 		}
 		x.Discard("program finished before the cancellation point")
 		return ""
+	}
+	if runErr == runaway || errors.Is(runErr, runaway) {
+		return fmt.Sprintf("the context was cancelled (%s) on tick %d but execution went on: more than 20000 further iterations, stopped by the harness\n%s", c.How, c.CancelAt, describe)
 	}
 	if runErr == nil {
 		return fmt.Sprintf("the context was cancelled on tick %d but the call returned no error (ran %d more ticks)\n%s", c.CancelAt, ticks-ticksAtCancel, describe)
